@@ -38,6 +38,9 @@
    BlockBlueprint._filterMaterialInput); with default settings the block tops of every assembly must lie on the mesh
    of the first assembly with the most blocks (makeAssemsAbleToSnapToUniformMesh); a third-core hex grid holds the
    cells with 0 <= angle < 120 degrees (HexGrid.isInFirstThird).
+   A negative cold area is an inconsistency for every material but Void (Component._checkNegativeArea and its docstring;
+   Block.getSmearDensity would also reject a negative cold Void gap, but Block.completeInitialLoading swallows that
+   ValueError, and the component-level rule is the documented one).
    Compositions are stated in units that need no atomic weights: number densities as given ("nd"), mass density per
    nuclide rho*w ("mf" with density), number fractions and total mass density ("nf"), mass fractions (isotopics on a
    library material), enrichment m235/(m235+m238) and Zr mass fraction (UZr with U235_wt_frac / ZR_wt_frac).
